@@ -454,11 +454,11 @@ def check(run: Run) -> None:
               "in which no item survives is indexed as an empty, error-free page", file=FILE_A, node=fa.node)
 
     # ---- R4
-    refusal_tables(run, model)
-    from ..effects import Effects
-    from ..indexing import hash_ack
+    from ..indexscen import create_rules, reindex_rules, writeback_rules
 
-    hash_ack(run, model, Effects(model), "C08.R4")
+    reindex_rules(run, model, dict(refuse="C08.R4"))
+    create_rules(run, model, "C08.R4")
+    writeback_rules(run, model, "C08.R4")
 
     # ---- R5
     pr_ok = True
